@@ -731,7 +731,10 @@ class MemorizedFunc(Logger):
         except (IOError, OSError, ValueError):
             # some backend can also raise OSError; ValueError: the stored
             # source is unreadable, e.g. truncated by an interrupted write.
-            self._write_func_code(func_code, first_line)
+            # Results found next to a missing or unreadable source cannot be
+            # attributed to the current code (e.g. the process was interrupted
+            # while clearing the cache after a code change): wipe them.
+            self.clear(warn=False)
             return False
         if old_func_code == func_code:
             return True
